@@ -189,6 +189,10 @@ intcmp(const void *xa, const void *xb)
 		return (0);
 }
 
+#ifdef PHOTOSPLINE_VERIF
+int photospline_verif_modify_factor_threads = 0;
+#endif
+
 cholmod_factor* 
 modify_factor(cholmod_sparse *A, cholmod_factor *L,
     long *F, long *nF_, long *G, long *nG_, long *H1, long *nH1_,
@@ -226,6 +230,13 @@ modify_factor(cholmod_sparse *A, cholmod_factor *L,
 	 */
 	#define GOTO_SPEEDUP 9.0
 	n_threads = get_nthreads();
+#ifdef PHOTOSPLINE_VERIF
+	/* Verification hook (off unless PHOTOSPLINE_VERIF is defined): lets the
+	 * harness fix the worker count this cost model assumes, to tell apart
+	 * what depends on the model from what depends on the worker pool. */
+	if (photospline_verif_modify_factor_threads > 0)
+		n_threads = photospline_verif_modify_factor_threads;
+#endif
 
 	if ((c->modfl <= 0) && (c->lnz > 0)) {
 		/* 
